@@ -11,6 +11,16 @@ Theorem C05_gen_modes_ok : tmodes_ok gen_hop_modes = true.
 Proof. vm_compute. reflexivity. Qed.
 Print Assumptions C05_gen_modes_ok.
 
+(* the mem_fun(obj, method) factories hand the method pointer on by implicit conversion only *)
+Theorem C05_gen_memfun_pass_ok : memptr_ok gen_memfun_pass = true.
+Proof. vm_compute. reflexivity. Qed.
+Print Assumptions C05_gen_memfun_pass_ok.
+
+(* every explicit conversion written in the headers is one the model accounts for *)
+Theorem C05_gen_conversions_are_the_modelled_ones : casts_ok gen_casts = true.
+Proof. vm_compute. reflexivity. Qed.
+Print Assumptions C05_gen_conversions_are_the_modelled_ones.
+
 (* the type-erased call: the type through which every call site calls equals the type of the
    function whose address is stored; every function_pointer_cast targets call_type or hook *)
 Theorem C05_gen_erased_call_typed :
@@ -24,13 +34,14 @@ Print Assumptions C05_gen_erased_call_typed.
    the library passes them and its result converts: the hops neither launder a mismatch nor reject a
    legal call -- for every arity, every signature and every functor shape of the universe *)
 Theorem C05_accepts_iff_callable :
-  forall M, tmodes_ok M = true -> forall sig r f, lib_accepts M sig r f = direct_ok sig r f.
+  forall M P, tmodes_ok M = true -> memptr_ok P = true ->
+    forall sig r f, lib_accepts M P sig r f = direct_ok sig r f.
 Proof. exact accepts_iff_callable. Qed.
 Print Assumptions C05_accepts_iff_callable.
 
 Corollary C05_library_accepts_iff_callable :
-  forall sig r f, lib_accepts gen_hop_modes sig r f = direct_ok sig r f.
-Proof. exact (accepts_iff_callable gen_hop_modes C05_gen_modes_ok). Qed.
+  forall sig r f, lib_accepts gen_hop_modes gen_memfun_pass sig r f = direct_ok sig r f.
+Proof. exact (accepts_iff_callable gen_hop_modes gen_memfun_pass C05_gen_modes_ok C05_gen_memfun_pass_ok). Qed.
 Print Assumptions C05_library_accepts_iff_callable.
 
 (* the named rejection classes *)
@@ -47,8 +58,14 @@ Theorem C05_nonconst_reference_needs_nonconst_lvalue :
 Proof. exact nonconst_reference_needs_nonconst_lvalue. Qed.
 
 Theorem C05_nonconst_method_on_const_object_rejected :
-  forall ps rf sig r, direct_ok sig r (TMemBound true false ps rf) = false.
+  forall rel ps rf sig r, direct_ok sig r (TMemBound rel true false ps rf) = false.
 Proof. exact nonconst_method_on_const_object_rejected. Qed.
+Print Assumptions C05_nonconst_method_on_const_object_rejected.
+
+(* a method of a class that is neither the object's class nor one of its bases *)
+Theorem C05_method_of_foreign_class_rejected :
+  forall rel oc mc ps rf sig r, memptr_doc rel = false -> direct_ok sig r (TMemBound rel oc mc ps rf) = false.
+Proof. exact foreign_method_rejected. Qed.
 
 Theorem C05_incompatible_result_rejected :
   forall ps rf sig r, result_ok rf r = false -> direct_ok sig r (TFun ps rf) = false.
@@ -91,11 +108,17 @@ Example C05_by_value_hop_refuted :
   let M := ("retype_return_functor<void>", [ByValue]) :: gen_hop_modes in
   let f := THideLast (THideReturn (TFun [mkP TInt FLRef] (Some TInt))) in
   tmodes_ok M = false /\
-  lib_accepts M [mkP TInt FVal; mkP TInt FVal] None f = true /\
+  lib_accepts M MPImplicit [mkP TInt FVal; mkP TInt FVal] None f = true /\
   direct_ok [mkP TInt FVal; mkP TInt FVal] None f = false /\
   (* ... but not when hide_return is outermost (explicit instantiation by call_it) *)
-  lib_accepts M [mkP TInt FVal] None (THideReturn (TFun [mkP TInt FLRef] (Some TInt))) = false.
+  lib_accepts M MPImplicit [mkP TInt FVal] None (THideReturn (TFun [mkP TInt FLRef] (Some TInt))) = false.
 Proof. vm_compute. repeat split; reflexivity. Qed.
+
+(* a factory that casts the method pointer would accept a derived-class method on a base object *)
+Example C05_explicit_memptr_refuted :
+  lib_accepts [] MPExplicit [] None (TMemBound RMethInDerived false false [] None) = true /\
+  direct_ok [] None (TMemBound RMethInDerived false false [] None) = false.
+Proof. exact explicit_memptr_launders. Qed.
 
 Example C05_example :
   direct_ok [mkP TD FLRef; mkP TInt FVal] (Some TDouble) (TBindLast (TFun [mkP TB FLRef; mkP TLong FCRef; mkP TPB FVal] (Some TInt)) TPD) = true /\
